@@ -215,8 +215,9 @@ Section Report.
       ok (mk meth "Avg constraints per feature" (MHund (mean_hund cpf)) None None
              (Some "Cross-tree constraints") 1)
     else if String.eqb meth "extra_constraint_representativeness" then
-      let l := fold_left (fun acc c => fold_left (fun a s => add_once s a) (ctc_features (c_ast c)) acc)
-                         (ctcs m) [] in
+      let l := filter (fun s => list_existsb_eq s fnames)
+                      (fold_left (fun acc c => fold_left (fun a s => add_once s a) (ctc_features (c_ast c)) acc)
+                                 (ctcs m) []) in
       ok (mk meth "Features in constraints" (MNames l) (Some (zlen l))
              (Some (get_ratio (zlen l) (zlen fnames) 2)) (Some "Cross-tree constraints") 1)
     else Err OtherExn.
